@@ -782,7 +782,23 @@ def q_extend(it, sv, a, k):
     return None
 
 
-SEQ_METHODS = {"pop": q_pop, "append": q_append, "decode": q_decode, "extend": q_extend}
+def q_split(it, sv, a, k):
+    """bytes.split(sep, 1) on a buffer known to contain sep: [prefix before the first sep, rest after it]"""
+    if sv.elem_kind != "byte" or len(a) != 2 or a[1] != 1:
+        raise Unsupported("split on a symbolic sequence (only bytes.split(sep, 1))")
+    sep = ops._seq_term(a[0])
+    t = sv.term
+    i = z3.IndexOf(t, sep, 0)
+    if not it.branch(i >= 0):
+        return [SeqVal("byte", t, "bytes")]
+    head = it.ctx.fresh_term(BYTES, "packet")
+    tail = it.ctx.fresh_term(BYTES, "rest")
+    it.ctx.add_fact(t == z3.Concat(head, sep, tail))
+    it.ctx.add_fact(z3.Not(z3.Contains(head, sep)))
+    return [SeqVal("byte", head, "bytes"), SeqVal("byte", tail, "bytes")]
+
+
+SEQ_METHODS = {"split": q_split, "pop": q_pop, "append": q_append, "decode": q_decode, "extend": q_extend}
 
 
 def r_append(it, sr, a, k):
@@ -895,7 +911,17 @@ def d_clear(it, m, a, k):
     return None
 
 
-MAP_METHODS = {"get": d_get, "pop": d_pop, "keys": d_keys, "values": d_values, "items": d_items, "clear": d_clear}
+def d_update(it, m, a, k):
+    """dict.update(loaded): the engine only records *what* was merged (ghost list `merged`)."""
+    it.ctx.ghost.setdefault("merged", []).append(a[0] if a else None)
+    if it.write_log is not None:
+        it.write_log.append((m.prefix, "update"))
+    for c in m.world.columns_under(m.prefix):
+        m.world.havoc(c)
+    return None
+
+
+MAP_METHODS = {"update": d_update, "get": d_get, "pop": d_pop, "keys": d_keys, "values": d_values, "items": d_items, "clear": d_clear}
 
 
 # --------------------------------------------------------------------------- install
